@@ -56,10 +56,10 @@ CLAIMED = {
    technique="Coq proof by induction on the record/block list with a buffer invariant for arbitrary B + regenerated parameters + sampled differential correspondence",
    design="5/C05"),
  "C12": dict(
-   text="PARTIAL. Coq theorems over ALL source texts for the text layer: reference_format ignores columns 1-6 and 73+, inserted comment/blank/bare-directive lines anywhere (also between a line and its continuation), joins continuations, applies every REPLACING pair to each line exactly once in order; the sentence splitter returns exactly the printed entries; re-breaking and re-spacing an entry gives the same compact clause text. Two shapes are refuted and kept as findings (numbered EJECT/SKIP lines, '/' comment lines). "
-        "Synonyms, optional words, clause order, case and level renumbering go through the unmodelled clause regexp and are decided by metamorphic correspondence only (original vs rewritten copybook: schema and layout must be equal).",
-   note="Modelled by hand: reference_format, dde_sentences, compact_source with Python's exact white-space and digit classes. NOT modelled: the clause regular expression, structure (C07), schema emission; layer B has no Coq statement. Known findings: numbered directives, '/' comments, lower-case words, separator after a picture, VALUE literal re-parsed by estruct, word continuation blanks, INDEXED BY naming (2 shapes).",
-   technique="Coq proof by induction over line lists / joined text for the hand-modelled text layer + metamorphic differential correspondence for the clause layer",
+   text="Two engines. (1) Text layer, Coq theorems over ALL source texts: reference_format ignores columns 1-6 and 73+, inserted comment/blank/bare-directive lines anywhere (also between a line and its continuation), joins continuations, applies every REPLACING pair to each line exactly once in order; the sentence splitter returns exactly the printed entries; re-breaking and re-spacing an entry gives the same compact clause text. (2) Clause layer (engine C12b), Coq theorems over ALL clause lists and ALL spellings the printer allows: a faithful model of the 15-alternative clause regular expression (re.finditer with IGNORECASE, the later-wins merge, DDE naming) recovers exactly the clauses of every printed entry (C12b_clause_dict_printer), and two printings of the same entry that differ in clause order, optional words (IS, TIMES, USAGE, ON, WHEN), synonyms, separators and letter case give the same clause record up to the as-written fields (C12b_respelling); every finding of the regexp is refuted by a witness. "
+        "PARTIAL for what lies beyond clause_dict: level renumbering and the composition with structure(), schema emission and estruct's second parse are decided by metamorphic correspondence (original vs rewritten copybook: schema and layout equal), incl. per-group renumbering and composed rewrites.",
+   note="Modelled by hand: reference_format, dde_sentences, compact_source, clause_pattern.finditer with Python's exact white-space, word and digit classes (regenerated from the interpreter) and the alternatives, synonym lists, usage words and flags read from the source (T1, fail closed). Known findings: numbered directives, '/' comments, lower-case words, separator after a picture, VALUE literal re-parsed by estruct, word continuation blanks, INDEXED BY naming (2 shapes), keyword-prefixed names, BLANK WHEN ZEROS/ZEROES, trailing JUSTIFIED, SIGN without SEPARATE.",
+   technique="Coq proof by induction over line lists / joined text / clause lists (regex scanner vs printer) + regenerated parameters + metamorphic and direct differential correspondence",
    design="5/C12"),
  "C13": dict(
    text="Coq theorems over ALL strings (lists of code points, any length), outside eight exactly characterised known-bad families: the decoder-side scanner either raises ValueError or sizes the picture as the number of positions the grammar denotes and the string holds no foreign character (fuel sufficiency proved); both scanners accept the same strings with the same element lists; generator and decoder agree on the numeric-versus-text classification (C13_agree_class_full); expanding every c(n) to n copies is accepted, stays outside the known-bad families and leaves size, sign, integer and fraction digit counts and class unchanged (C13_repeat_full); the decoder's size, digit counts and class equal the grammar's (C13_decoder_summary). Each finding has a refutation witness. "
@@ -129,7 +129,9 @@ manifest = dict(
     setup_cmd="./check --setup",
     hooks=dict(guard="STINGRAY_READER_VERIF", enable="no source hooks exist; checks export STINGRAY_READER_VERIF=1 but /repo never reads it",
                baseline_off_cmd="/venv/bin/python /verif/harness/baseline.py", source_commits=[], add_only=True),
-    engines=[dict(name="coq-judge", path="/verif/coq", serves_properties=sorted(CLAIMED),
+    engines=[dict(name="coq-judge-C12b", path="/verif/coq/Props/C12b.v", serves_properties=["C12"],
+                  kind_free_text="second engine of C12 (./check C12 runs it after the first): model of cobol_parser's clause regular expression, theorems coq/Props/C12b.v, judge coq/Judge/JC12b.v, runner harness/c12b.py; its counts are merged into evidence/C12.json under coverage.engines"),
+             dict(name="coq-judge", path="/verif/coq", serves_properties=sorted(CLAIMED),
                   kind_free_text="Coq 8.16 development (Model/Spec/Proofs/Props) + per-property judge extracted to OCaml, driven by harness/lib.py")],
     checks=checks,
     notes="See DESIGN.md. Fix commits in /repo are listed in known_findings.json ('fixed').",
